@@ -112,3 +112,39 @@ Proof. exact nonvacuous_proof. Qed.
 (* The constants read from the Go sources on this run are the ones the spec uses. *)
 Example C14_consts_tied : consts_tied_statement.
 Proof. exact consts_tied_proof. Qed.
+
+(* The pool: for every link oracle and every tagged link list in every iteration order (the same link
+   under several tags, several times under one tag, rejected links), the dialer set built has exactly
+   one node per usable (tag, link) occurrence - same count, and tag by tag the names delivered under
+   that tag in order. *)
+Theorem C14_pool_one_per_occurrence :
+  forall link_name m, pool_faithful link_name m (new_dialer_set link_name m).
+Proof. exact pool_one_per_occurrence_proof. Qed.
+Print Assumptions C14_pool_one_per_occurrence.
+
+(* A group without filters contains every occurrence, each with a zero offset. *)
+Theorem C14_no_filters_all_occurrences :
+  forall link_name re_ok re_match dur m,
+    exists g, filter_and_annotate re_ok re_match dur (new_dialer_set link_name m) [] [] = Ok g
+              /\ map snd g = map (fun _ => 0%Z) g
+              /\ pool_faithful link_name m (map fst g).
+Proof. exact no_filters_all_occurrences_proof. Qed.
+Print Assumptions C14_no_filters_all_occurrences.
+
+(* C14_members_exact over occurrences: the pool the filters run on is the faithful one. *)
+Theorem C14_members_exact_occurrences :
+  forall link_name re_ok re_match dur m lines annos,
+    def_valid re_ok dur lines annos = true ->
+    forall rp rf ra,
+      pool_faithful link_name m (new_dialer_set link_name m)
+      /\ filter_and_annotate re_ok re_match dur (new_dialer_set link_name m) lines annos
+         = Ok (spec_group re_ok re_match dur rp rf ra (new_dialer_set link_name m) lines annos).
+Proof. exact members_exact_occurrences_proof. Qed.
+Print Assumptions C14_members_exact_occurrences.
+
+(* Building every distinct link string only once (de-duplication by link across tags) is NOT faithful. *)
+Definition C14_dedup_by_link_full : Prop :=
+  forall link_name m, pool_faithful link_name m (new_dialer_set_dedup link_name m).
+Theorem C14_dedup_by_link_refuted : ~ C14_dedup_by_link_full.
+Proof. exact dedup_by_link_refuted_proof. Qed.
+Print Assumptions C14_dedup_by_link_refuted.
